@@ -18,6 +18,10 @@ REL = 1e-6          # the statement's tolerance for agreement with the SI defini
 ULPS_RT = 16        # "a few ulps" for round trips / composition (each direction is <= 4 float operations)
 
 
+# exactly one full turn, in the units in which that is a round number whose radian value is computed exactly
+FULL_TURN = {"Degree": [360.0, 360], "Mil": [6400.0], "Thousandth": [6000.0], "OClock": [12.0]}
+
+
 def magnitudes(rng: random.Random, n_rand: int):
     base = [0.0, 1.0, -1.0, 3.0, -3.0, 0, 1, -1, 3, 7, 12, -12, 100]      # plain ints too: the constructors accept int or float
     for e in range(-9, 10, 3 if n_rand < 50 else 1):
@@ -32,7 +36,7 @@ def in_domain(tab, u, v, x, w=None):
     if tab[u]["dim"] != "angular":
         return True
     rad = float(UA.to_si(u, x))
-    lim = 2 * math.pi * 0.999
+    lim = 2 * math.pi * (1 + 1e-12)     # "within one turn", the full turn itself included
     if any(tab[n]["kind"] == "atan" for n in (u, v, w) if n):
         lim = 0.5
     return abs(rad) <= lim
@@ -93,9 +97,11 @@ def run(chk: core.Check, replay=None) -> None:
         lin = tab[u]["kind"] == "lin" and tab[v]["kind"] == "lin"
         if lin and UA.pair_factor(p) != UA.scale(u) / UA.scale(v):
             raise core.MachineryError(f"pair factor export inconsistent for {u}->{v}")
-        for x in mags:
+        for x in mags + FULL_TURN.get(u, []):
             if not in_domain(tab, u, v, x):
                 continue
+            if x in FULL_TURN.get(u, []):
+                chk.stratum("exactly_one_full_turn")
             want = UA.convert(u, v, x)
             wantf = float(want)
             key = {"u": u, "v": v}
@@ -176,7 +182,7 @@ def run(chk: core.Check, replay=None) -> None:
     chk.sample({"pair": ex["pairs"][12], "exact_factor": str(UA.pair_factor(ex["pairs"][12]).limit_denominator(10**12))})
     chk.sample({"unit_definition": tab["PSI"]})
     chk.sample({"triple": ex["triples"][100]})
-    chk.require_strata(["angular", "distance", "energy", "pressure", "temperature", "velocity", "weight", "triples",
+    chk.require_strata(["exactly_one_full_turn", "angular", "distance", "energy", "pressure", "temperature", "velocity", "weight", "triples",
                         "kind_lin", "kind_aff", "kind_atan"])
     chk.rule.append("all 287 ordered unit pairs and 2267 triples of one dimension (exhaustive, exported by TLC from UnitAlgebra) x a "
                     "magnitude set (0, +-1, +-3, decades 1e-9..1e9, seeded random mantissas) x 5 conversion spellings; "
